@@ -572,6 +572,26 @@ where
         mut self: Pin<&mut Self>,
         cx: &mut Context<'_>,
     ) -> Result<PollResponse, DispatchError> {
+        // A response whose body fails or ends short cannot be completed and ends the connection.
+        // What is already encoded - complete responses to earlier pipelined requests and the
+        // written part of this one - is still flushed first: the error is kept like a request
+        // stream error and returned once the write buffer is empty.
+        macro_rules! abort_response {
+            ($this:ident, $err:expr) => {{
+                $this.flags.insert(Flags::FINISHED | Flags::READ_DISCONNECT);
+                $this.flags.remove(Flags::KEEP_ALIVE);
+                $this.messages.clear();
+                if let Some(mut payload) = $this.payload.take() {
+                    payload.set_error(PayloadError::Incomplete(None));
+                }
+                if $this.error.is_none() {
+                    *$this.error = Some($err);
+                }
+                $this.state.set(State::None);
+                return Ok(PollResponse::DrainWriteBuf);
+            }};
+        }
+
         'res: loop {
             let mut this = self.as_mut().project();
             match this.state.as_mut().project() {
@@ -677,7 +697,12 @@ where
                             }
 
                             Poll::Ready(None) => {
-                                this.codec.encode(Message::Chunk(None), this.write_buf)?;
+                                if let Err(err) =
+                                    this.codec.encode(Message::Chunk(None), this.write_buf)
+                                {
+                                    // the body ended short of its declared length
+                                    abort_response!(this, DispatchError::Io(err));
+                                }
 
                                 // if we have not yet pipelined to the next request, then
                                 // this.payload was the payload for the request we just finished
@@ -709,8 +734,7 @@ where
                             Poll::Ready(Some(Err(err))) => {
                                 let err = err.into();
                                 tracing::error!("Response payload stream error: {err:?}");
-                                this.flags.insert(Flags::FINISHED);
-                                return Err(DispatchError::Body(err));
+                                abort_response!(this, DispatchError::Body(err));
                             }
 
                             Poll::Pending => return Ok(PollResponse::DoNothing),
@@ -739,7 +763,12 @@ where
                             }
 
                             Poll::Ready(None) => {
-                                this.codec.encode(Message::Chunk(None), this.write_buf)?;
+                                if let Err(err) =
+                                    this.codec.encode(Message::Chunk(None), this.write_buf)
+                                {
+                                    // the body ended short of its declared length
+                                    abort_response!(this, DispatchError::Io(err));
+                                }
 
                                 // if we have not yet pipelined to the next request, then
                                 // this.payload was the payload for the request we just finished
@@ -770,10 +799,10 @@ where
 
                             Poll::Ready(Some(Err(err))) => {
                                 tracing::error!("Response payload stream error: {err:?}");
-                                this.flags.insert(Flags::FINISHED);
-                                return Err(DispatchError::Body(
-                                    Error::new_body().with_cause(err).into(),
-                                ));
+                                abort_response!(
+                                    this,
+                                    DispatchError::Body(Error::new_body().with_cause(err).into())
+                                );
                             }
 
                             Poll::Pending => return Ok(PollResponse::DoNothing),
